@@ -301,6 +301,23 @@ def ioItems : Db → Except Exn (List (Bytes × Bytes))
       | .ok r => .ok ((ck, e.2) :: r)
       | .error x => .error x
 
+/-! ## branches of the key space: getTopItemIter / remTopVals (SuberBase.getItemIter, getFullItemIter, trim) -/
+
+def startsWith : Bytes → Bytes → Bool
+  | [], _ => true
+  | _ :: _, [] => false
+  | a :: as, b :: bs => a == b && startsWith as bs
+
+/-- `getTopItemIter(top)`: from `set_range(top)` while the key starts with `top` (`startsWith top key`) -/
+def topItems (db : Db) (top : Bytes) : Db := (setRange db top).takeWhile (fun e => startsWith top e.1)
+
+def eraseKeys (db : Db) : Db → Db
+  | [] => db
+  | e :: es => eraseKeys (erase db e.1) es
+
+/-- `remTopVals(top)`: delete that branch; True iff something was deleted -/
+def remTop (db : Db) (top : Bytes) : Db × Bool := (eraseKeys db (topItems db top), !(topItems db top).isEmpty)
+
 /-! ## the three Suber classes as one step function (keys and values are already bytes) -/
 
 inductive Kind where
@@ -321,8 +338,11 @@ inductive Op where
   | rem (k : Bytes)
   | remv (k v : Bytes)           -- ioset
   | cnt (k : Bytes)              -- io, ioset
-  | cntAll                       -- plain
-  | items
+  | cntAll                       -- all kinds: number of entries of the sub-db
+  | items                        -- getItemIter() of the whole sub-db
+  | itemsTop (top : Bytes)       -- getItemIter(top)
+  | fullItems (top : Bytes)      -- getFullItemIter(top)
+  | trim (top : Bytes)
 deriving Repr
 
 inductive Res where
@@ -394,6 +414,11 @@ def step (kind : Kind) (db : Db) : Op → Db × Res
   | .items => match kind with
     | .plain => (db, .pairs db)
     | _ => liftRo db .pairs (ioItems db)
+  | .itemsTop top => match kind with
+    | .plain => (db, .pairs (topItems db top))
+    | _ => liftRo db .pairs (ioItems (topItems db top))
+  | .fullItems top => (db, .pairs (topItems db top))
+  | .trim top => ((remTop db top).1, .bool (remTop db top).2)
 
 /-- what `get(k)` answers, as a `Res` -/
 def observe (kind : Kind) (db : Db) (k : Bytes) : Res := (step kind db (.get k)).2
